@@ -329,8 +329,8 @@ func (r *Run) IsChild() bool { return r.isChild }
 // and merges what the children found. Returns false in a child (which must then do the work and
 // call Finish). A child that dies (OOM, fatal error, watchdog) is reported as a harness error.
 func (r *Run) Fork(n int, extraEnv ...string) bool {
-	if r.isChild {
-		return false
+	if r.isChild || r.replay != "" {
+		return false // a replay runs the one case in this process
 	}
 	dir := filepath.Join(Root(), ".work", r.ID)
 	os.MkdirAll(dir, 0o755)
@@ -531,6 +531,11 @@ func (r *Run) Finish() {
 	rpdir := filepath.Join(Root(), "replay")
 	if d := os.Getenv("VERIF_EVIDENCE_DIR"); d != "" {
 		evdir, rpdir = d, filepath.Join(d, "replay")
+	}
+	if r.replay != "" {
+		// a replay is not a check run: it must not replace the evidence of one
+		evdir = filepath.Join(Root(), ".work", r.ID, "replay-evidence")
+		rpdir = filepath.Join(evdir, "replay")
 	}
 	os.MkdirAll(evdir, 0o755)
 	b, _ := json.MarshalIndent(ev, "", " ")
